@@ -24,13 +24,15 @@ SPEC = {
              "(sanitizer stage: 4 more), thorough: all 22; a pair contains every history in which only one connection sends. Alphabet per connection: SYN, SYN+ACK, ACK, client data segment 0..2 "
              "(1,1,3 bytes), server data segment 0..2 (1,1,2 bytes) in any order with duplicates, FIN per side, RST per side, a first packet "
              "that is not the SYN (mid-stream start: attaches with partial following, must be ignored for good without), each event with a "
-             "time increment from {0, keep-alive/2, keep-alive, keep-alive+1us}; packets are Ethernet/IP(v6)/TCP/payload frames serialized "
+             "time increment from {0, keep-alive/2, keep-alive, keep-alive+1us}; plus THIRD-PARTY packets of a TCP 4-tuple that belongs to neither "
+             "connection and creates no stream (pure ACK; a data segment while partial following is off) with the same four increments, "
+             "which only make time pass and drive the idle sweep, so that both connections can be expired at the same sweep; packets are Ethernet/IP(v6)/TCP/payload frames serialized "
              "and re-parsed, fed through process_packet(Packet&) with explicit timestamps. Not generated (left open by the documentation): "
              "payload on a SYN, a SYN or SYN+ACK on a live 4-tuple, traffic of a connection the follower already forgot. Three alphabet "
              "profiles per (configuration, pair): FULL (everything; depth 5/4 san, 7/5 plain in the quick tier [without/with partial "
              "following], 6/4 and 8/6 thorough), DATA (every packet kind, time increment 0 only; depth 7/5, 10/7 quick; 9/6 san and "
              "FIXPOINT (depth 21) / 9 plain thorough), TIME (all four increments, one data segment per direction; depth 6 san quick, 7 san "
-             "thorough, FIXPOINT (depth 13) in the plain stage of both tiers). States are deduplicated on a canonical string read from private "
+             "thorough, FIXPOINT (depth 15) in the plain stage of both tiers; third-party kinds: both in TIME, the ACK in FULL, none in DATA). States are deduplicated on a canonical string read from private "
              "members: per live stream the identifier, partial flag, region of (now - last_seen), both flows' state, destination, sequence "
              "number, buffered chunks (seq,size), byte counter, pending payload; region of (now - last_cleanup_); plus the model state. "
              "On EVERY transition: multiset of callbacks of the event (new-stream, stream-closed, termination+reason, each attributed to a "
@@ -39,7 +41,7 @@ SPEC = {
              "(connection, direction, offset) so that a misrouted segment is visible; find_stream() succeeds exactly for live connections "
              "and returns the right 4-tuple/orientation/partial flag, throws stream_not_found otherwise; stream table size = live "
              "connections; buffered chunks/bytes = out-of-order segments received and never above the limits; no exception, no ASan/UBSan "
-             "report, no heap block left after destroying the follower. Timeouts are predicted at the first sweep at or after expiry (a sweep "
+             "report, no heap block left after destroying the follower. Timeouts are predicted, for EVERY expired connection, at the first sweep at or after expiry (a sweep "
              "runs on a processed packet once a keep-alive has passed since the previous sweep). Plus 6 linear runs at the real limits "
              "(513 one-byte out-of-order chunks v4 / v6 both directions / descending / on a partial stream, 49 x 65000 bytes against 3 MiB, "
              "512 chunks then the gap filler: all 513 bytes delivered, no termination). distinct_nontrivial = (sample of) product states "
